@@ -444,7 +444,17 @@ async fn run(case: Json, tol: Tolerate) -> Outcome {
                         out.hit("fault.disable-between-tcp-connect-and-dispatch");
                     }
                 }
+                // (an op that ended early - a dial the daemon did not take up - leaves the sockets unread while
+                // virtual time passed: a hold timer may have ended the connection meanwhile)
+                if !dial {
+                    if let Some(sp) = conns.get_mut(&a) {
+                        sp.process_inbox(net::now_ms());
+                    }
+                }
                 let has = !dial && conns.get(&a).map(|s| s.conn.is_some() && s.state != SpkState::Closed).unwrap_or(false);
+                if net::trace_on() {
+                    eprintln!("[trace] op {} {}: has={} speaker {:?}", opi, op.to_compact(), has, conns.get(&a).map(|s| (s.state, s.conn.as_ref().map(|c| (c.conn_id(), c.ctl().peer_closed())), s.notifications.len(), s.keepalive_times.len())));
+                }
                 if tag == "conn" && has {
                     continue;
                 }
